@@ -50,7 +50,7 @@ Proof.
     + inversion H; reflexivity.
     + destruct s as [cx nm args| | | |k1|a| | | | | | | |]; try (inversion H; reflexivity).
       * destruct cx; inversion H; reflexivity.
-      * destruct k1; try (inversion H; reflexivity). destruct (i_exp c); [discriminate H | inversion H; reflexivity].
+      * destruct k1; try (inversion H; reflexivity). destruct (i_exp c); inversion H; reflexivity.
     + inv_bind H. inv_bind H. inv_bind H. inversion H; subst. cbn [fst]. rewrite hc_one, hc_if.
       rewrite (I2 _ _ _ _ E), (I3 _ _ _ _ E0), (I4 _ _ _ _ E1). reflexivity.
     + inv_bind H. inversion H; subst. cbn [fst]. rewrite hc_one, hc_switch. exact (I5 _ _ _ _ E).
